@@ -72,6 +72,7 @@ def step (m : M) (args : List String) : M × String :=
   | "udpt" :: fs => (udpFromTarget m (nat fs "u") (nat fs "tp") (nat fs "pc"), "ok")
   | "udprm" :: fs => (udpRemove m (nat fs "u"), "ok")
   | "tick" :: fs => ({ m with now := m.now + nat fs "s" * ns }, "ok")
+  | ["scrapequiet"] => (scrape m, "ok")   -- a scrape whose output is not looked at (it ran concurrently with other calls)
   | ["scrape"] =>
     let m' := scrape m
     (m', s!"tt={showCounter m'.tt.perKey ns} ttloc={showCounter m'.tt.perLoc ns} opened={showCounter m'.opened 1} closed={showCounter m'.closed 1} bytes={showCounter m'.dataBytes 1} bytesloc={showCounter m'.dataBytesLoc 1} nat={m'.natAdded}/{m'.natRemoved} udppk={showCounter m'.udpPackets 1}")
